@@ -14,7 +14,9 @@ pp.optim.functional.modjac / the RobustModel on the same parameters (their corre
     2^-40 otherwise (real solvers, kernels, Exp in the group retraction).  The weight expansion of
     normalize_RWJ is tied separately on every documented weight shape (and a few undocumented ones).
 (2) property oracle (python, independent of the Coq model, written from the property text): the weight is
-    broadcast with torch.expand, the documented system W J d = -W R resp. (clampdiag(J^T W J) prod(1+lam))
+    broadcast with torch.expand, the corrector of every residual is derived from the CONFIGURATION (kernel K = scaling
+    by sqrt(rho'(|R_i|^2)) computed here by autograd, None entry = untouched, one entry serves all residuals; never from
+    the list the optimizer object holds), the documented system W J d = -W R resp. (clampdiag(J^T W J) prod(1+lam))
     d = -J^T W R is built with numpy from modjac's J and the configured corrector; A, b seen by the solver
     must equal it, D must solve it (least squares / min-norm for PINV / linear solve), every parameter
     must have moved by its slice: addition for Euclidean / algebra, expm(hat(d[:k])) @ X in the matrix
@@ -31,8 +33,12 @@ from .. import lie
 RULE = ('case = (optimizer GN|LM, 1-3 parameters of kinds Euclid / algebra so3,se3,rxso3,sim3 / group SO3,SE3,RxSO3,Sim3 with 1-2 items, '
         '1-2 residuals of shape (d),(N,d),(B,N,d) with d in 1..3 built from linear + bilinear (exact) or sin / Exp / Log / Act (real) features, '
         'weight in every documented shape suf+(d,d) given at construction / at step() / both, kernels x correctors (auto FastTriggs, FastTriggs, Triggs, '
-        'user scale correctors, lists with None), solvers (default, PINV, LSTSQ, Cholesky, CG, scripted dyadic steps), strategies (default, Constant, '
-        'Adaptive, TrustRegion) with damping 2^-30..2^10, min/max clamps active / inactive, vectorize on/off, target on/off); directed block first, '
+        'user scale correctors, lists / tuples with None in every position), solvers (the optimizer\'s own default, PINV, LSTSQ, Cholesky, CG with every '
+        'optional constructor argument: upper, atol / rtol / hermitian, rcond / driver, maxiter / tol; scripted dyadic steps), strategies (LM\'s own default, '
+        'Constant, Adaptive, TrustRegion, with / without bounds of their own) with damping 2^-30..2^10, min/max/reject given or left to their defaults, clamps '
+        'active / inactive, vectorize on/off, target on/off, input as tensor / tuple / list / dict, step() arguments positional / keyword / omitted, '
+        'contiguous / strided / expanded storage of parameters, targets and weights, judged call = first or second call on the optimizer object (after a '
+        'call with another step weight / target)); every argument tensor is compared bit for bit after the call; directed block first, '
         'then random; one evaluation per trial of a call; non-trivial = a trial with a non-zero step; distinct by full spec')
 
 ALG = ['so3', 'se3', 'rxso3', 'sim3']
@@ -93,6 +99,8 @@ def build(pp, torch, spec):
             for j, p in enumerate(plist):
                 shape = p['shape']
                 t = T(p['data']).reshape(shape)
+                if spec.get('layout') == 'strided' and len(shape) >= 2:
+                    t = t.mT.contiguous().mT      # same values, non-contiguous memory
                 if p['kind'] == 'E':
                     q = torch.nn.Parameter(t, requires_grad=p['req'])
                 elif p['kind'] == 'A':
@@ -140,6 +148,8 @@ def build(pp, torch, spec):
             for s in r['shape']:
                 n *= s
             tg.append(T([rr.randint(-4, 4) / 2.0 for _ in range(n)]).reshape(r['shape']))
+            if spec.get('layout') == 'strided' and len(r['shape']) >= 2:
+                tg[-1] = tg[-1].mT.contiguous().mT
         target = tg[0] if (len(tg) == 1 and spec.get('single_out', True)) else tuple(tg)
     return net, inp, target
 
@@ -182,14 +192,28 @@ def make_optimizer(pp, torch, spec, net):
             else:
                 kk = make_kernel(pp, c[1])
                 user_corr.append(pp.optim.corrector.FastTriggs(kk) if c[0] == 'Fast' else pp.optim.corrector.Triggs(kk))
-    karg = None if kernels is None else (kernels[0] if spec.get('kernel_single') else kernels)
-    carg = None if user_corr is None else (user_corr[0] if spec.get('corrector_single') else user_corr)
+    seq = tuple if spec.get('seq_form') == 'tuple' else list          # documented: list or tuple containers
+    karg = None if kernels is None else (kernels[0] if spec.get('kernel_single') else seq(kernels))
+    carg = None if user_corr is None else (user_corr[0] if spec.get('corrector_single') else seq(user_corr))
+
+    def wlayout(t):
+        # memory layouts of the same weight values: transposed storage, stride 2 in the last dimension, stride 0 (expand)
+        L = spec.get('w_layout')
+        if L == 'mT':
+            return t.mT.contiguous().mT
+        if L == 'stride2':
+            big = torch.zeros(tuple(t.shape[:-1]) + (2 * t.shape[-1],), dtype=t.dtype)
+            big[..., ::2] = t
+            return big[..., ::2]
+        if L == 'expand' and t.dim() == 3 and all(torch.equal(t[0], t[i]) for i in range(t.shape[0])):
+            return t[0].expand(t.shape)
+        return t
 
     def weights(ws):
         if ws is None:
             return None
-        l = [T(w['data']).reshape(w['shape']) for w in ws]
-        return l[0] if (len(l) == 1 and spec.get('weight_single')) else l
+        l = [wlayout(T(w['data']).reshape(w['shape'])) for w in ws]
+        return l[0] if (len(l) == 1 and spec.get('weight_single')) else seq(l)
     w_init = weights(spec.get('w_init'))
     w_step = weights(spec.get('w_step'))
     script = spec.get('script')
@@ -211,7 +235,7 @@ def make_optimizer(pp, torch, spec, net):
                 D = T(d).reshape(-1, 1)
             else:
                 try:
-                    D = self.inner(A, b)
+                    D = self.inner(A=A, b=b)
                 except Exception:
                     self.failed += 1
                     raise
@@ -220,24 +244,33 @@ def make_optimizer(pp, torch, spec, net):
             return D
     sname = spec.get('solver')
     inner = None
-    if script is None:
-        inner = {None: None, 'PINV': S.PINV, 'LSTSQ': S.LSTSQ, 'Cholesky': S.Cholesky, 'CG': S.CG}[sname]
-        inner = inner() if inner is not None else (S.PINV() if spec['opt'] == 'GN' else S.Cholesky())
+    if script is None and sname is not None:
+        # the solver object is built with the spec's optional constructor arguments (Cholesky(upper), PINV(atol, rtol,
+        # hermitian), LSTSQ(rcond, driver), CG(maxiter, tol)); solver None = the optimizer's OWN default, wrapped below
+        inner = {'PINV': S.PINV, 'LSTSQ': S.LSTSQ, 'Cholesky': S.Cholesky, 'CG': S.CG}[sname](**(spec.get('solver_args') or {}))
     rs = RecSolver(inner)
+    own_solver = script is None and sname is None
+    kw = dict(solver=None if own_solver else rs, kernel=karg, corrector=carg, weight=w_init)
+    for k in ('kernel', 'corrector', 'weight', 'solver'):       # an omitted keyword and an explicit None are both call forms
+        if kw[k] is None and spec.get('omit_none'):
+            del kw[k]
+    if not (spec['vectorize'] and spec.get('omit_defaults')):
+        kw['vectorize'] = spec['vectorize']
     rst = None
     if spec['opt'] == 'GN':
-        opt = pp.optim.GN(net, solver=rs, kernel=karg, corrector=carg, weight=w_init, vectorize=spec['vectorize'])
+        opt = pp.optim.GN(net, **kw)
     else:
         st = spec.get('strategy')              # None | ('Constant', damping) | ('Adaptive', damping) | ('TrustRegion', radius)
         ST = pp.optim.strategy
+        sbounds = {} if spec.get('strategy_own_bounds') else dict(min=2.0 ** -40, max=2.0 ** 40)
         if st is None:
-            strat = ST.TrustRegion()
+            strat = None                       # LM's own default strategy, wrapped below
         elif st[0] == 'Constant':
             strat = ST.Constant(damping=st[1])
         elif st[0] == 'Adaptive':
-            strat = ST.Adaptive(damping=st[1], min=2.0 ** -40, max=2.0 ** 40)
+            strat = ST.Adaptive(damping=st[1], **sbounds)
         else:
-            strat = ST.TrustRegion(radius=st[1], min=2.0 ** -40, max=2.0 ** 40)
+            strat = ST.TrustRegion(radius=st[1], **sbounds)
 
         class RecStrategy(object):
             def __init__(self, inner):
@@ -246,9 +279,21 @@ def make_optimizer(pp, torch, spec, net):
             def update(self, pg, *a, **kw):
                 self.log.append(snapshot(net))
                 return self.inner.update(pg, *a, **kw)
-        rst = RecStrategy(strat)
-        opt = pp.optim.LM(net, solver=rs, strategy=rst, kernel=karg, corrector=carg, weight=w_init,
-                          reject=spec.get('reject', 16), min=spec.get('min', 1e-6), max=spec.get('max', 1e32), vectorize=spec['vectorize'])
+        if strat is not None:
+            rst = RecStrategy(strat)
+            kw['strategy'] = rst
+        elif not spec.get('omit_none'):
+            kw['strategy'] = None
+        for k in ('reject', 'min', 'max'):     # the documented defaults (16, 1e-6, 1e32) are left to LM when the spec has none
+            if k in spec:
+                kw[k] = spec[k]
+        opt = pp.optim.LM(net, **kw)
+        if strat is None:
+            rst = RecStrategy(opt.strategy)
+            opt.strategy = rst
+    if own_solver:
+        rs.inner = opt.solver
+        opt.solver = rs
     rs.opt = opt
     # label and wrap the correctors the optimizer ended up with
     recs = []
@@ -282,26 +327,94 @@ def snapshot(net):
     return [[float(v) for v in q.detach().reshape(-1).tolist()] for q in net.parameters()]
 
 
+def _tensors(x):
+    """the tensors inside an argument (tensor / None / list / tuple / dict)"""
+    if x is None:
+        return []
+    if isinstance(x, dict):
+        return [t for v in x.values() for t in _tensors(v)]
+    if isinstance(x, (list, tuple)):
+        return [t for v in x for t in _tensors(v)]
+    return [x]
+
+
+def call_step(opt, spec, inp, target, weight):
+    """opt.step in the spec's call form: positional (input[, target]) + weight keyword, or everything by keyword;
+    an absent target / weight is omitted or given as an explicit None"""
+    with contextlib.redirect_stdout(io.StringIO()):
+        if spec.get('call_form') == 'kw':
+            kw = dict(input=inp, target=target, weight=weight)
+            if spec.get('omit_none'):
+                kw = {k: v for k, v in kw.items() if v is not None}
+            return float(opt.step(**kw))
+        if spec.get('call_form') == 'pos3':
+            return float(opt.step(inp, target, weight))
+        if weight is not None:
+            return float(opt.step(inp, target, weight=weight))
+        return float(opt.step(inp, target) if (target is not None or not spec.get('omit_none')) else opt.step(inp))
+
+
 def execute(pp, torch, spec):
     """run one step() of the real optimizer with the recorders; -> record dict"""
     net, inp, target = build(pp, torch, spec)
     opt, rs, rst, recs, w_step = make_optimizer(pp, torch, spec, net)
+    # the documented forms of `input`: a tensor, a tuple / list of positional arguments, a dict of keyword arguments
+    form = spec.get('inp_form')
+    if form == 'tuple':
+        inp = (inp,)
+    elif form == 'list':
+        inp = [inp]
+    elif form == 'dict':
+        inp = {'x': inp}
+    if isinstance(target, tuple) and spec.get('seq_form') == 'tuple' and spec.get('target_list'):
+        target = list(target)
+    w_init = opt.weight
+    raised = None
+    warm = spec.get('warm')
+    if warm:
+        # the judged call is the second call on the optimizer object; the first one is made with OTHER arguments
+        # (another weight given at step(), another target) - nothing of it may survive except the parameter values
+        # (and, for LM, the strategy's damping, which the recorders read at every trial)
+        r3 = random.Random(spec['cseed'] + 1)
+        try:
+            with torch.no_grad():
+                R0 = opt.model(inp, target)
+            ww = None
+            if warm.get('weight'):
+                ww = [torch.tensor(gen_weight(r3, list(r.shape), 0, spec['exact'])['data'], dtype=torch.float64).reshape(r.shape[-1], r.shape[-1]) for r in R0]
+                ww = ww[0] if (len(ww) == 1 and r3.random() < 0.5) else ww
+            wt = target
+            if warm.get('target'):
+                tg = [torch.tensor([r3.randint(-4, 4) / 2.0 for _ in range(r.numel())], dtype=torch.float64).reshape(r.shape) for r in R0]
+                wt = tg[0] if (len(tg) == 1 and spec.get('single_out', True)) else tuple(tg)
+            call_step(opt, spec, inp, wt, ww)
+        except Raise:
+            raised = 'scripted'
+        except Exception as e:       # noqa
+            raised = 'first call: %s: %s' % (type(e).__name__, str(e)[:160])
+        if raised is None:
+            rs.log, rs.failed = [], 0
+            if rst is not None:
+                rst.log = []
+            for rc in recs:
+                rc.log = []
     J = pp.optim.functional.modjac(opt.model, input=(inp, target), flatten=False, vectorize=spec['vectorize'])
     with torch.no_grad():
         R = opt.model(inp, target)
     # the recorders have not been called yet (RobustModel.forward does not touch the correctors)
     rec = dict(J=[[j.detach().clone() for j in Jr] for Jr in J], R=[r.detach().clone() for r in R], P0=snapshot(net),
-               raised=None, net=net, opt=opt, recs=recs, inp=inp, target=target)
-    try:
-        with contextlib.redirect_stdout(io.StringIO()):
-            if w_step is not None:
-                rec['ret'] = float(opt.step(inp, target, weight=w_step))
-            else:
-                rec['ret'] = float(opt.step(inp, target))
-    except Raise:
-        rec['raised'] = 'scripted'
-    except Exception as e:       # noqa
-        rec['raised'] = '%s: %s' % (type(e).__name__, str(e)[:160])
+               raised=raised, net=net, opt=opt, recs=recs, inp=inp, target=target)
+    # non-mutation: every tensor handed to the optimizer (input, target, both weights) is bit-identical afterwards
+    args = dict(input=_tensors(inp), target=_tensors(target), weight_init=_tensors(w_init), weight_step=_tensors(w_step))
+    snaps = {k: [t.detach().clone() for t in v] for k, v in args.items()}
+    if raised is None:
+        try:
+            rec['ret'] = call_step(opt, spec, inp, target, w_step)
+        except Raise:
+            rec['raised'] = 'scripted'
+        except Exception as e:       # noqa
+            rec['raised'] = '%s: %s' % (type(e).__name__, str(e)[:160])
+    rec['mutated'] = [k for k in args if any(a.shape != b.shape or not torch.equal(a.detach(), b) for a, b in zip(args[k], snaps[k]))]
     rec['final'] = snapshot(net)
     rec['solves'] = rs.log
     rec['solver_failed'] = rs.failed
@@ -496,18 +609,51 @@ def moved_by(spec, before, after, D, train_only):
     return None
 
 
+def documented_correctors(pp, torch, spec):
+    """the corrector of every residual, from the CONFIGURATION (not from what the optimizer object ended up holding):
+    `corrector` wins over `kernel`; a kernel K stands for FastTriggs(K): R_i, J_i scaled by sqrt(rho'(|R_i|^2)); a None
+    entry of either list means "leave this residual alone"; a single object / one-element list serves every residual"""
+    ident = lambda R, J: (R, J)
+
+    def fast(k):
+        kern = make_kernel(pp, k)
+
+        def f(R, J):
+            with torch.enable_grad():
+                x = R.detach().square().sum(-1, keepdim=True).requires_grad_(True)
+                g, = torch.autograd.grad(kern(x).sum(), x)
+            sc = g.detach().sqrt()
+            return sc * R, sc.expand_as(R).reshape(-1, 1) * J
+        return f
+
+    def user(c):
+        if c[0] == 'Scale':
+            return lambda R, J: (c[1] * R, c[1] * J)
+        kk = make_kernel(pp, c[1])
+        obj = pp.optim.corrector.FastTriggs(kk) if c[0] == 'Fast' else pp.optim.corrector.Triggs(kk)     # a fresh object of the user's class
+        return lambda R, J: obj(R=R, J=J)
+    cs, ks = spec.get('corrector'), spec.get('kernel')
+    if cs is not None:
+        out = [ident if c is None else user(c) for c in cs]
+    elif ks is not None:
+        out = [ident if k is None else fast(k) for k in ks]
+    else:
+        out = [ident]
+    return out
+
+
 def documented_system(pp, torch, np, spec, rec):
     """(J, R, W) of the property text: modjac's J (trainable columns), configured corrector, broadcast weight"""
     Rs, Js = rec['R'], rec['J']
     plist = spec['params']
-    cors = [rc.inner for rc in rec['recs']]
+    cors = documented_correctors(pp, torch, spec)
     Jc, Rc = [], []
     for i, (r, Jr) in enumerate(zip(Rs, Js)):
         cols = [j.reshape(r.numel(), -1) for j, p in zip(Jr, plist) if p['req']]
         Ji = torch.cat(cols, 1)
         c = cors[0] if len(cors) == 1 else cors[i]
         with torch.no_grad():
-            r2, j2 = c(R=r.clone(), J=Ji.clone())
+            r2, j2 = c(r.clone(), Ji.clone())
         Rc.append(r2.reshape(-1))
         Jc.append(j2.reshape(r.numel(), -1))
     Jn = torch.cat(Jc, 0).numpy()
@@ -556,6 +702,8 @@ def oracle(pp, torch, spec, rec=None):
             return 'frozen-raises: %s.step raised %s with requires_grad=False on parameter(s) %r' % (
                 name, rec['raised'], [j for j, p in enumerate(spec['params']) if not p['req']])
         return 'step-raises: %s.step raised %s' % (name, rec['raised'])
+    if rec.get('mutated'):
+        return 'mutation: %s.step changed its argument(s) %s in place' % (name, ', '.join(rec['mutated']))
     Jn, Rn, W = documented_system(pp, torch, np, spec, rec)
     scripted = spec.get('script') is not None
     sname = spec.get('solver')
@@ -604,7 +752,14 @@ def oracle(pp, torch, spec, rec=None):
             return 'system:b: trial %d: the right-hand side given to the solver is not -J^T W R' % (k + 1)
         D = e['D'].numpy().reshape(-1)
         if not scripted:
-            tol = 1e-3 if sname == 'CG' else 1e-7
+            tol = 1e-7
+            if sname == 'CG':
+                # documented stopping rule |A d - b| < tol |b| (default 1e-5) within maxiter (default 10 n) iterations;
+                # held to the configured tol only where CG converges for sure (well conditioned SPD A)
+                ev = np.linalg.eigvalsh((A + A.T) / 2)
+                sargs = spec.get('solver_args') or {}
+                sure = ev[0] > 0 and ev[-1] / ev[0] < 1e3 and sargs.get('maxiter', 10 * len(b)) >= 10 * len(b)
+                tol = max(1e-7, 100 * sargs.get('tol', 1e-5)) if sure else 1e-3
             res = np.linalg.norm(A @ D - b)
             if res > tol * (np.linalg.norm(A, 2) * np.linalg.norm(D) + np.linalg.norm(b)) + 1e-300:
                 return 'solve:lm: trial %d: D does not solve A_k d = -J^T W R (residual %.3g)' % (k + 1, res)
@@ -753,7 +908,9 @@ def gen_spec(rng, opt=None, exact=None, **force):
         good = [[dy(rng, 16, 1) if rng.random() < 0.7 else 0.0 for _ in range(ncols)]]
         spec['script'] = (big + good) if opt == 'LM' else good
     else:
-        spec['solver'] = rng.choice([None, 'PINV', 'LSTSQ'] if opt == 'GN' else [None, 'Cholesky', 'PINV', 'LSTSQ', 'CG'])
+        spec['solver'] = force['solver'] if 'solver' in force else rng.choice([None, 'PINV', 'LSTSQ'] if opt == 'GN' else [None, 'Cholesky', 'PINV', 'LSTSQ', 'CG'])
+        if spec['solver'] is not None:
+            spec['solver_args'] = force['solver_args'] if 'solver_args' in force else rng.choice(solver_arg_choices(opt, spec['solver']))
     if opt == 'LM':
         e = rng.randint(-4, 3) if exact else rng.randint(-30, 10)
         lam = 2.0 ** e
@@ -763,6 +920,9 @@ def gen_spec(rng, opt=None, exact=None, **force):
         spec['strategy'] = None if st is None else ((st, lam) if st != 'TrustRegion' else (st, 1.0 / lam))
         spec['lam0'] = lam if st is not None else 1e-6
         spec['reject'] = rng.choice([0, 1, 2, 3])
+        if spec.get('script') is None and rng.random() < 0.1:
+            del spec['reject']                # LM's documented default (16)
+        spec['strategy_own_bounds'] = rng.random() < 0.3      # Adaptive / TrustRegion built without min / max of their own
         cl = force.get('clamp', rng.choice(['off', 'off', 'min', 'max', 'both']))
         if cl in ('min', 'both'):
             spec['min'] = rng.choice([0.5, 2.0, 8.0])
@@ -772,7 +932,44 @@ def gen_spec(rng, opt=None, exact=None, **force):
             spec['max'] = rng.choice([16.0, 4.0, 64.0])
         elif exact:
             spec['max'] = 2.0 ** 40
+        if (spec.get('solver_args') or {}).get('driver') == 'gels' and 'max' in spec and spec['max'] <= 64:
+            spec['solver_args'] = {'driver': 'gelsd'}        # gels assumes full rank; an active max clamp can make A singular
+    # call forms (all documented): containers as list / tuple, input as tensor / tuple / list / dict, arguments positional /
+    # by keyword, absent optional arguments omitted / explicit None, defaults left to the optimizer
+    spec['seq_form'] = rng.choice(['list', 'tuple'])
+    spec['target_list'] = rng.random() < 0.5
+    spec['inp_form'] = force.get('inp_form') or rng.choice(['tensor', 'tensor', 'tuple', 'list', 'dict'])
+    spec['call_form'] = force.get('call_form') or rng.choice(['pos', 'pos', 'kw', 'pos3'])
+    spec['omit_none'] = rng.random() < 0.5
+    spec['omit_defaults'] = rng.random() < 0.5
+    # memory layouts (same values): non-contiguous parameters / targets / weights, expanded (stride 0) weights N*d*d
+    spec['layout'] = 'strided' if rng.random() < 0.3 else None
+    spec['w_layout'] = rng.choice([None, None, 'mT', 'stride2', 'expand'])
+    if spec['w_layout'] == 'expand':
+        for w in (spec.get('w_init') or []) + (spec.get('w_step') or []):
+            if len(w['shape']) == 3:
+                dd = w['shape'][-1] ** 2
+                w['data'] = w['data'][:dd] * w['shape'][0]
+    # history: the judged step() is the second call on the optimizer, after a call with another step weight / target
+    wr = force['warm'] if 'warm' in force else (rng.random() < 0.3)
+    spec['warm'] = dict(weight=rng.random() < 0.6, target=rng.random() < 0.5) if wr else None
     return spec
+
+
+def solver_arg_choices(opt, sname):
+    """the documented optional constructor arguments of the solvers, at values that keep "D solves the system" decidable
+    (rank cut-offs far below the data's scale, iteration budgets at least the default)"""
+    if sname == 'Cholesky':
+        return [{}, {'upper': True}, {'upper': False}]
+    if sname == 'PINV':
+        ch = [{}, {'rtol': 1e-13}, {'atol': 1e-12, 'rtol': 1e-13}]
+        return ch + ([{'hermitian': True}, {'hermitian': True, 'rtol': 1e-13}] if opt == 'LM' else [])
+    if sname == 'LSTSQ':
+        ch = [{}, {'driver': 'gelsd'}, {'driver': 'gelsy'}, {'driver': 'gelss'}, {'rcond': 1e-13}, {'rcond': 1e-13, 'driver': 'gelsd'}]
+        return ch + ([{'driver': 'gels'}] if opt == 'LM' else [])
+    if sname == 'CG':
+        return [{}, {'tol': 1e-10}, {'maxiter': 400}, {'maxiter': 400, 'tol': 1e-9}]
+    return [{}]
 
 
 def _gm(vals):
@@ -818,7 +1015,7 @@ def exact_guard(spec, rec):
 def tolerances(spec):
     exact = spec['exact']
     exactA = exact
-    exactP = exact and spec.get('script') is not None and all(p['kind'] != 'G' for p in spec['params'])
+    exactP = exact and spec.get('script') is not None and all(p['kind'] != 'G' for p in spec['params']) and not spec.get('warm')
     return ((0, 0) if exactA else (REL, None)), ((0, 0) if exactP else (REL, REL))
 
 
@@ -906,6 +1103,30 @@ def directed_specs(rng, thorough):
         for opt in ('GN', 'LM'):
             for exact in (True, False):
                 specs.append(gen_spec(rng, opt=opt, exact=exact, cmode=cm, nres=2))
+    # lists with a None entry on two-residual models: every position, kernels and user correctors that really act
+    for opt in ('GN', 'LM'):
+        for pos in (0, 1):
+            for exact in (True, False):
+                sp = gen_spec(rng, opt=opt, exact=exact, cmode='kernel-list', nres=2, warm=False)
+                k = ('Scale', 0.25) if exact else rng.choice([('Huber', 0.25), ('Cauchy', 0.5), ('PseudoHuber', 0.5)])
+                sp['kernel'] = [k, k]
+                sp['kernel'][pos] = None
+                specs.append(sp)
+            sp = gen_spec(rng, opt=opt, exact=(pos == 0), cmode='user-list', nres=2, warm=False)
+            sp['corrector'] = [('Scale', 0.5), ('Scale', 0.5)]
+            sp['corrector'][pos] = None
+            specs.append(sp)
+    # every optional constructor argument of every solver (and the optimizers' own default solver), on systems with several columns
+    for opt in ('LM', 'GN'):
+        for sname in ([None, 'Cholesky', 'PINV', 'LSTSQ', 'CG'] if opt == 'LM' else [None, 'PINV', 'LSTSQ']):
+            for sargs in solver_arg_choices(opt, sname):
+                if sargs or sname is None:
+                    specs.append(gen_spec(rng, opt=opt, exact=False, smode='real', solver=sname, solver_args=sargs,
+                                          kinds=rng.choice([['E', 'G'], ['A', 'E'], ['G'], ['E', 'E']])))
+    # every form of `input` and of the step() call, first and second call on the object
+    for k, form in enumerate(['tensor', 'tuple', 'list', 'dict']):
+        for j, cf in enumerate(['pos', 'kw', 'pos3']):
+            specs.append(gen_spec(rng, opt=('GN', 'LM')[(k + j) % 2], inp_form=form, call_form=cf, warm=bool((k + j) % 3 == 0)))
     # LM: clamps, strategies, scripted rejections
     for cl in ('off', 'min', 'max', 'both'):
         for st in (None, 'Constant', 'Adaptive', 'TrustRegion'):
@@ -938,7 +1159,15 @@ def run_specs(ctx, pp, torch, specs, tag):
         ctx.count('weight-' + ('none' if (spec.get('w_init') is None and spec.get('w_step') is None) else
                                ('both' if (spec.get('w_init') and spec.get('w_step')) else ('init' if spec.get('w_init') else 'step'))))
         ctx.count('corr-' + ('auto' if (spec.get('kernel') and not spec.get('corrector')) else ('user' if spec.get('corrector') else 'trivial')))
-        ctx.count('solver-' + ('script' if spec.get('script') is not None else str(spec.get('solver'))))
+        ctx.count('solver-' + ('script' if spec.get('script') is not None else str(spec.get('solver')) +
+                               ''.join('/%s=%s' % kv for kv in sorted((spec.get('solver_args') or {}).items()))))
+        ctx.count('input-%s/call-%s%s' % (spec.get('inp_form', 'tensor'), spec.get('call_form', 'pos'), '/second-call' if spec.get('warm') else ''))
+        if (spec.get('w_init') or spec.get('w_step')) and spec.get('w_layout'):
+            ctx.count('weight-layout-' + spec['w_layout'])
+        if spec.get('layout'):
+            ctx.count('strided-parameters-targets')
+        if any(x is None for x in (spec.get('kernel') or []) + (spec.get('corrector') or [])) and len(spec['res']) > 1:
+            ctx.count('list-with-None-on-two-residuals')
         if spec['opt'] == 'LM':
             ctx.count('strategy-' + str((spec.get('strategy') or ['default'])[0]))
             ctx.count('clamp-' + ('min' if 'min' in spec and spec['min'] >= 0.5 else '') + ('max' if 'max' in spec and spec['max'] <= 64 else ''))
